@@ -10,6 +10,7 @@ import VlsModel.Model.Bolt3Parse
 import VlsModel.Gen.FnFilterC04
 import VlsModel.Model.Bolt3Filter
 import VlsModel.Lemmas.FnGen
+import VlsModel.Gen.FnTxParse
 /-
 C04 — `Bolt3.estimateFeerate` (the feerate the signer infers for a second-level HTLC transaction,
 `Model/Bolt3Htlc.lean`) proved equal to the body of `estimate_feerate_per_kw` that `translate/rs2lean.py`
@@ -1227,5 +1228,113 @@ example : (phase2Gen (Validator := Nat) (Node := Nat) (NodeState := Nat) (Balanc
     (fun _ tb tc _ _ _ _ hs _ => .ok ([tb, tc] ++ hs.map (·.1.amount_msat))) (fun _ _ _ => 0) (fun _ _ _ _ _ _ => .ok ())
     (fun _ _ n _ _ => .ok n) (.ok ()) (fun k rtx => .ok (rtx.sum + (k + 100) + (k + 1) + 1000, []))
     toyChan 9 42 253 10 20 [⟨3, 7, 9⟩] []).toOption.map (fun r => (r.1.enforcement_state, r.2.1)) = some (43, 4141) := by decide
+
+
+/-! ## Round 10 (b2): the six script parsers of tx.rs (`parse_*`) translated by rs2lean (`Gen/FnTxParse.lean`)
+
+`translate/fn_targets/TxParse.b2.json`: `Instructions` is an opaque type, `expect_op / expect_data / expect_number /
+expect_script_end` of tx/script.rs are declared receiver-updating externals, opcodes are their consensus bytes.  The
+externals are instantiated with the steps of the model's template interpreter (`Bolt3.runToks`, lemmas `x*_runToks`),
+and each generated parser is proved to accept the instruction list of its BOLT-3 template with exactly the captured
+values the model's decoder uses (`C04_fn_parse_*`; re-proved against the source on every run: an opcode, the order
+of the expectations or the returned tuple changed in tx.rs breaks them).  Not proved here: that nothing else is
+accepted (that direction rests on `Gen.Bolt3.tpl*` + `C04_gen_classify` and the `C04Parse` correspondence). -/
+namespace ParseTie
+open Bolt3 Gen.Bolt3
+
+set_option linter.unusedSimpArgs false
+abbrev It := List Instr
+def mis : Rs.Fail := .err "mismatch"
+def nat (d : Bytes) : List Nat := d.map UInt8.toNat
+def xInstrs (s : List Instr) : It := s
+def xOp (is : It) (c : Nat) : Rs.M It :=
+  match is with
+  | .op c' :: is' => if c = c' then .ok is' else .error mis
+  | _ => .error mis
+def xData (is : It) : Rs.M (It × List Nat) :=
+  match is with
+  | .push d :: is' => .ok (is', nat d)
+  | _ => .error mis
+def xNum (is : It) : Rs.M (It × Int) :=
+  match is with
+  | i :: is' => match expectNumber i with
+    | some n => .ok (is', n)
+    | none => .error mis
+  | [] => .error mis
+def xEnd (is : It) : Rs.M It := if is.isEmpty then .ok [] else .error mis
+
+
+end ParseTie
+open ParseTie Bolt3 Gen.Bolt3
+
+set_option linter.unusedSimpArgs false
+/-! the four instantiated externals are the steps of the model's template interpreter `Bolt3.runToks` (the
+    interpreter the byte-level correspondence group `C04Parse` runs against the real `decode_commitment_tx`) -/
+theorem xOp_runToks (a : Bool) (c : Nat) (ts : List Tok) (is : List Instr) (acc : List Val) :
+    runToks a (.op c :: ts) is acc = (match xOp is c with | .ok v => runToks a ts v acc | .error _ => none) := by
+  rcases is with _ | ⟨⟨c'⟩ | d | _, is⟩ <;> simp only [runToks, xOp]
+  split <;> rfl
+theorem xData_runToks (a : Bool) (ts : List Tok) (is : List Instr) (acc : List Val) :
+    (runToks a (.data :: ts) is acc).isSome → (xData is).toOption.isSome := by
+  rcases is with _ | ⟨⟨c'⟩ | d | _, is⟩ <;> simp [runToks, xData, Except.toOption]
+theorem xNum_runToks (a : Bool) (ts : List Tok) (is : List Instr) (acc : List Val) :
+    runToks a (.num :: ts) is acc = (match xNum is with | .ok (v, n) => runToks a ts v (.num n :: acc) | .error _ => none) := by
+  rcases is with _ | ⟨i, is⟩ <;> simp only [runToks, xNum]
+  cases expectNumber i <;> rfl
+theorem xEnd_runToks (a : Bool) (ts : List Tok) (is : List Instr) (acc : List Val) :
+    runToks a (.endS :: ts) is acc = (match xEnd is with | .ok v => runToks a ts v acc | .error _ => none) := by
+  simp only [runToks, xEnd]; split <;> rfl
+
+theorem C04_fn_parse_to_countersigner_delayed_script (ci : Gen.FnTxParse.CommitmentInfo) (k : Bytes) :
+    Gen.FnTxParse.CommitmentInfo.parse_to_countersigner_delayed_script (ext_Script_instructions := xInstrs) (ext_Instructions_expect_op := xOp) (ext_Instructions_expect_data := xData) (ext_Instructions_expect_script_end := xEnd) ci
+      [.push k, .op 0xad, .op 0x51, .op 0xb2] = .ok (nat k) := by
+  simp [Gen.FnTxParse.CommitmentInfo.parse_to_countersigner_delayed_script, xInstrs, xOp, xData, xNum, xEnd, bind, Except.bind, pure, Except.pure]
+
+theorem C04_fn_parse_anchor_script (ci : Gen.FnTxParse.CommitmentInfo) (k : Bytes) :
+    Gen.FnTxParse.CommitmentInfo.parse_anchor_script (ext_Script_instructions := xInstrs) (ext_Instructions_expect_op := xOp) (ext_Instructions_expect_data := xData) (ext_Instructions_expect_script_end := xEnd) ci
+      [.push k, .op 0xac, .op 0x73, .op 0x64, .op 0x60, .op 0xb2, .op 0x68] = .ok (nat k) := by
+  simp [Gen.FnTxParse.CommitmentInfo.parse_anchor_script, xInstrs, xOp, xData, xNum, xEnd, bind, Except.bind, pure, Except.pure]
+
+theorem C04_fn_parse_to_broadcaster_script (ci : Gen.FnTxParse.CommitmentInfo) (rk dk : Bytes) (i : Instr) (n : Int)
+    (hn : expectNumber i = some n) :
+    Gen.FnTxParse.CommitmentInfo.parse_to_broadcaster_script (ext_Script_instructions := xInstrs) (ext_Instructions_expect_op := xOp) (ext_Instructions_expect_data := xData) (ext_Instructions_expect_script_end := xEnd) (ext_Instructions_expect_number := xNum) ci
+      [.op 0x63, .push rk, .op 0x67, i, .op 0xb2, .op 0x75, .push dk, .op 0x68, .op 0xac] = .ok (nat rk, n, nat dk) := by
+  simp [Gen.FnTxParse.CommitmentInfo.parse_to_broadcaster_script, xInstrs, xOp, xData, xNum, xEnd, bind, Except.bind, pure, Except.pure, hn]
+
+theorem C04_fn_parse_revokeable_redeemscript (a : Bool) (rk dk : Bytes) (i : Instr) (n : Int)
+    (hn : expectNumber i = some n) :
+    Gen.FnTxParse.parse_revokeable_redeemscript (ext_Script_instructions := xInstrs) (ext_Instructions_expect_op := xOp) (ext_Instructions_expect_data := xData) (ext_Instructions_expect_script_end := xEnd) (ext_Instructions_expect_number := xNum)
+      [.op 0x63, .push rk, .op 0x67, i, .op 0xb2, .op 0x75, .push dk, .op 0x68, .op 0xac] a = .ok (nat rk, n, nat dk) := by
+  simp [Gen.FnTxParse.parse_revokeable_redeemscript, xInstrs, xOp, xData, xNum, xEnd, bind, Except.bind, pure, Except.pure, hn]
+
+/-- the anchors tail of the two HTLC templates -/
+def csvTail (a : Bool) : List Instr := if a then [.op 0x51, .op 0xb2, .op 0x75] else []
+
+theorem C04_fn_parse_received_htlc_script (a : Bool) (rh k1 ph k2 : Bytes) (i32 ic : Instr) (cltv : Int)
+    (h32 : expectNumber i32 = some 32) (hc : expectNumber ic = some cltv) :
+    Gen.FnTxParse.parse_received_htlc_script (ext_Script_instructions := xInstrs) (ext_Instructions_expect_op := xOp) (ext_Instructions_expect_data := xData) (ext_Instructions_expect_script_end := xEnd) (ext_Instructions_expect_number := xNum)
+      ([.op 0x76, .op 0xa9, .push rh, .op 0x87, .op 0x63, .op 0xac, .op 0x67, .push k1, .op 0x7c, .op 0x82, i32, .op 0x87,
+        .op 0x63, .op 0xa9, .push ph, .op 0x88, .op 0x52, .op 0x7c, .push k2, .op 0x52, .op 0xae, .op 0x67, .op 0x75, ic,
+        .op 0xb1, .op 0x75, .op 0xac, .op 0x68] ++ csvTail a ++ [.op 0x68]) a
+      = .ok (nat rh, nat k1, nat ph, nat k2, cltv) := by
+  cases a <;> simp [Gen.FnTxParse.parse_received_htlc_script, csvTail, xInstrs, xOp, xData, xNum, xEnd, bind, Except.bind, pure, Except.pure, h32, hc]
+
+theorem C04_fn_parse_offered_htlc_script (a : Bool) (rh k1 ph k2 : Bytes) (i32 : Instr)
+    (h32 : expectNumber i32 = some 32) :
+    Gen.FnTxParse.parse_offered_htlc_script (ext_Script_instructions := xInstrs) (ext_Instructions_expect_op := xOp) (ext_Instructions_expect_data := xData) (ext_Instructions_expect_script_end := xEnd) (ext_Instructions_expect_number := xNum)
+      ([.op 0x76, .op 0xa9, .push rh, .op 0x87, .op 0x63, .op 0xac, .op 0x67, .push k1, .op 0x7c, .op 0x82, i32, .op 0x87,
+        .op 0x64, .op 0x75, .op 0x52, .op 0x7c, .push k2, .op 0x52, .op 0xae, .op 0x67, .op 0xa9, .push ph, .op 0x88, .op 0xac,
+        .op 0x68] ++ csvTail a ++ [.op 0x68]) a
+      = .ok (nat rh, nat k1, nat k2, nat ph) := by
+  cases a <;> simp [Gen.FnTxParse.parse_offered_htlc_script, csvTail, xInstrs, xOp, xData, xNum, xEnd, bind, Except.bind, pure, Except.pure, h32]
+
+/-- a wrong number where `32` is expected is refused (the `thirty_two != 32` branch) -/
+theorem C04_fn_parse_received_htlc_script_not32 (a : Bool) (rh k1 : Bytes) (i32 : Instr) (m : Int) (rest : List Instr)
+    (h32 : expectNumber i32 = some m) (hm : m ≠ 32) :
+    Gen.FnTxParse.parse_received_htlc_script (ext_Script_instructions := xInstrs) (ext_Instructions_expect_op := xOp) (ext_Instructions_expect_data := xData) (ext_Instructions_expect_script_end := xEnd) (ext_Instructions_expect_number := xNum)
+      ([.op 0x76, .op 0xa9, .push rh, .op 0x87, .op 0x63, .op 0xac, .op 0x67, .push k1, .op 0x7c, .op 0x82, i32] ++ rest) a
+      = .error (.err "mismatch") := by
+  simp [Gen.FnTxParse.parse_received_htlc_script, xInstrs, xOp, xData, xNum, xEnd, bind, Except.bind, pure, Except.pure, Rs.fail, h32, hm]
+
 
 end VlsModel.Props.C04Fn
